@@ -141,10 +141,10 @@ pub fn def(tier: Tier) -> PropertyDef {
 	}
 	let max_len = tier.pick(400usize, 1500);
 	for i in 0..4 {
-		checks.push(pt(&format!("segments_{i}"), tier.pick(600, 6000), gen::val_stream(1, max_len, Domain::Any, true), run));
-		checks.push(pt(&format!("alphabet_{i}"), tier.pick(600, 6000), alphabet_stream(max_len), run));
+		checks.push(pt(&format!("segments_{i}"), tier.pick(2500, 10000), gen::val_stream(1, max_len, Domain::Any, true), run));
+		checks.push(pt(&format!("alphabet_{i}"), tier.pick(2500, 10000), alphabet_stream(max_len), run));
 	}
-	checks.push(pt("small_n_alphabet", tier.pick(4000, 40000), small_n_alphabet(60), run));
+	checks.push(pt("small_n_alphabet", tier.pick(20000, 80000), small_n_alphabet(60), run));
 	checks.extend(crate::fuzz_entry::corpus_checks("C04"));
 	PropertyDef {
 		id: "C04",
